@@ -2,7 +2,7 @@
    coordinates the required query of Model/Eval.v gathers, in the vocabulary of
    Model/Mutate.v and Spec/C04spec.v. *)
 From Coq Require Import List Ascii String ZArith NArith Bool Arith.
-From YP Require Import Outcome PyStr PyVal Doc PathParser Searches Eval Mutate C04spec C04lists C04delete C04order.
+From YP Require Import Outcome PyStr PyVal Doc PathParser Searches Eval Mutate C04spec C04lists C04delete C04plan.
 Import ListNotations.
 
 (* NodeCoords.parent (as an object identity) and NodeCoords.parentref of a result *)
@@ -28,7 +28,7 @@ Definition gathered (p : ppath) (d : node) : list pcoord :=
 
 Theorem delete_gathered_exact p d :
   wf_doc d ->
-  doc_ordered d (map pc_pair (gathered p d)) = true ->
+  del_all_located d (map pc_pair (gathered p d)) = true ->
   delete_nodes (map (fun c => CNode c false) (gathered p d)) d
   = MDone (delete_spec d (map pc_pair (gathered p d))).
 Proof. intros Hwf Ho. apply delete_exact_plain; assumption. Qed.
